@@ -102,6 +102,15 @@ func (s *state) rdsStep(f []string) (string, bool) {
 		s.services[host.Name(ms.host)] = ms.real()
 		return "ok", true
 	case "mvs":
+		// robust under shrinking: an undefined VirtualService or a repeated name is ignored (both sides)
+		if len(s.vs.Http) == 0 {
+			return "ok", true
+		}
+		for _, c := range m.vss {
+			if c.Name == s.cfg.Name {
+				return "ok", true
+			}
+		}
 		c := s.cfg.DeepCopy()
 		c.CreationTimestamp = time.Unix(int64(1000+len(m.vss)), 0)
 		m.vss = append(m.vss, c)
